@@ -247,6 +247,8 @@ func checkC06(p *Program, r *Report) {
 	}
 	r.Extra["writer_paths"] = len(ws)
 	r.Extra["reader_paths"] = len(rs)
+	// a segment's bytes depend on the segment alone: the codec keeps no state between calls
+	receiverReadOnly(p, r, "codec-stateless", "segment", "codec")
 
 	// ---- refusal -----------------------------------------------------------------------------------
 	badRefusal := ""
